@@ -27,8 +27,8 @@ RULE = ("source {raw, compressed_segmentation, jpeg} x {deep gzip, flat "
         "{4 layouts, sharded(1,1,0) raw, sharded(2,1,1) gzip} x destination "
         "data type {same, every wider Neuroglancer type} x {--copy-info, "
         "pre-existing info}; two-scale sources with different chunk sizes "
-        "per scale, 1-3 channels, position-coded voxels. The full product (3744 conversions) runs in both "
-        "tiers. 
+        "per scale, 1-3 channels, position-coded voxels. The full product "
+        "(3744 conversions) runs in both tiers. "
         "Non-trivial: encoding, layout or data type differs between source "
         "and destination.")
 ASSUMPTIONS = [
